@@ -624,12 +624,19 @@ impl C11 {
         }
         rep.count("histories");
         rep.add("deliveries", delivered);
+        // behaviour signature of a history: engine, number of datagrams, deliveries, IP version,
+        // and which of the stress ingredients actually occurred in it
+        let first_off = history.first().map(|h| h.contains(" [0,")).unwrap_or(false);
         rep.sig(&format!(
-            "{}|dgrams{}|deliv{}|{}",
+            "{}|dgrams{}|deliv{}|{}|first_at_0={}|pool={:?}|held={}|vlans={}",
             if conflicts { "conflict" } else { "plain" },
             n_dgrams,
-            (history.len() / 3) * 3,
-            if base.v6 { "v6" } else { "v4" }
+            history.len(),
+            if base.v6 { "v6" } else { "v4" },
+            first_off,
+            w.pool.verif_counts(),
+            w.held.len(),
+            base.vlans.len()
         ));
         if rep.want_sample() && history.len() < 14 {
             rep.sample(format!("{{\"history\":{},\"note\":\"stream#id proto [from,to) +=more fragments .=last\"}}", jstr(&history.join(" | "))));
